@@ -120,7 +120,7 @@ Definition ack_for (s : sys) (gx : gsys) (ref : rref) (loc : option Z) : Prop :=
   exists a, In a (g_acks (gs_g gx)) /\ a_ref a = (fst (fst ref), snd (fst ref)) /\ a_seed a = snd ref /\
             tr s <= a_abs a /\ forall lo, loc = Some lo -> loc_at s (a_abs a) = Some lo.
 
-Record Lk (m : mst) (l : lst) (s : sys) (gx : gsys) : Prop := mkLk {
+Record Lkg (scope : copy -> Prop) (m : mst) (l : lst) (s : sys) (gx : gsys) : Prop := mkLk {
   lk_live : m_live m = map fst (locs (s_pbl s));
   lk_len : length (l_puts l) = length (s_uploads s);
   lk_put : forall kk lo abs size, nth_error (l_puts l) kk = Some (Some lo) ->
@@ -128,7 +128,7 @@ Record Lk (m : mst) (l : lst) (s : sys) (gx : gsys) : Prop := mkLk {
   lk_fin : forall kk ref, l_fin l = Some (kk, ref) ->
              exists lo, nth_error (l_puts l) kk = Some lo /\ ack_for s gx ref lo;
   lk_cr : map fst (l_cr l) = m_copies m;
-  lk_ack : forall c ref, In (c, ref) (l_cr l) -> c_old c = false -> ack_for s gx ref (Some (c_loc c));
+  lk_ack : forall c ref, In (c, ref) (l_cr l) -> scope c -> ack_for s gx ref (Some (c_loc c));
   lk_slot : forall slot k lo, assoc_nat slot (m_upl m) = Some (k, lo) ->
               exists kk, assoc_nat slot (l_slot l) = Some kk /\ nth_error (l_puts l) kk = Some lo
 }.
@@ -138,6 +138,10 @@ Lemma ack_for_frame s gx s' gx' ref lo : tr s' = tr s -> locs (s_pbl s') = locs 
 Proof.
   intros Ht Hl Ha [a [H1 [H2 [H3 [H4 H5]]]]]. exists a. unfold loc_at in *. rewrite Ht, Hl. auto.
 Qed.
+
+Section Scope.
+Variable scope : copy -> Prop.
+Local Notation Lk := (Lkg scope).
 
 (** steps that touch neither the list nor the pending Puts *)
 Lemma Lk_frame m l s gx s' gx' : tr s' = tr s -> locs (s_pbl s') = locs (s_pbl s) -> s_uploads s' = s_uploads s ->
@@ -469,7 +473,7 @@ Proof.
     rewrite E in ML, MU, MC, Hck. cbn [Z.eqb Pos.eqb] in ML, MU, MC, Hck.
     assert (Hup : is_upres m e = false) by (unfold is_upres; rewrite E; reflexivity). rewrite Hup in MU.
     assert (Hlive : m_live m = fst b0 :: map fst (locs (s_pbl (x_sys x')))).
-    { rewrite (lk_live _ _ _ _ HL), Hl. reflexivity. }
+    { rewrite (lk_live _ _ _ _ _ HL), Hl. reflexivity. }
     rewrite Hlive in Hck, MC. rewrite <- Hlive in Hck, MC.
     assert (Hst : l_step cfgsx m l e =
                   mkL (l_puts l) (l_slot l) None (filter (fun cr => negb (Z.eqb (c_loc (fst cr)) (fst b0))) (l_cr l))).
@@ -575,16 +579,7 @@ Proof.
 Qed.
 
 (** ---- the start of an incarnation ---- *)
-Definition m_start (m : mst) : Prop := m_upl m = [] /\ Forall (fun c => c_old c = true) (m_copies m).
-Definition l0 (m : mst) : lst := mkL [] [] None (map (fun c => (c, (0, 0, 0)%N)) (m_copies m)).
-
-Lemma m_init_start : m_start m_init.
-Proof. split; [reflexivity|constructor]. Qed.
-Lemma mon_exit_start m : m_start (mon_exit m).
-Proof.
-  split; [reflexivity|]. unfold mon_exit. cbn [m_copies]. destruct (Z.eqb _ 0); [constructor|].
-  rewrite Forall_forall. intros c Hin. apply in_map_iff in Hin. destruct Hin as [c0 [<- _]]. reflexivity.
-Qed.
+Definition l0 (crs : list (copy * rref)) : lst := mkL [] [] None crs.
 
 Lemma restore_locs alloc init : forall n bl sd ls, restore_blocks alloc init n = (bl, sd, ls) ->
   map b_loc bl = map bs_loc (firstn (length bl) init).
@@ -617,10 +612,12 @@ Proof.
   rewrite <- !firstn_map, !map_map. reflexivity.
 Qed.
 
-Lemma Lk_start cfgsx objs ops c cfg bs st0 now e0 x0 m0 gx : replay_restore c cfg bs st0 now e0 = Some x0 ->
-  tag e0 = 0%Z -> m_start m0 -> Lk (mon_entry cfgsx objs ops m0 e0) (l0 m0) (x_sys x0) gx.
+Lemma Lk_start cfgsx objs ops c cfg bs st0 now e0 x0 m0 gx crs : replay_restore c cfg bs st0 now e0 = Some x0 ->
+  tag e0 = 0%Z -> m_upl m0 = [] -> map fst crs = m_copies m0 ->
+  (forall cp ref, In (cp, ref) crs -> scope cp -> ack_for (x_sys x0) gx ref (Some (c_loc cp))) ->
+  Lk (mon_entry cfgsx objs ops m0 e0) (l0 crs) (x_sys x0) gx.
 Proof.
-  intros Hr T0 [Hu Hold]. destruct (restore_live _ _ _ _ _ _ _ Hr) as [Hlive Hup].
+  intros Hr T0 Hu Hcr Hack. destruct (restore_live _ _ _ _ _ _ _ Hr) as [Hlive Hup].
   destruct (mon_entry_store_fields cfgsx objs ops m0 e0) as [ML [_ [MU MC]]].
   assert (Hres : is_upres m0 e0 = false) by (unfold is_upres; rewrite T0; reflexivity).
   rewrite T0 in ML, MU, MC. cbn [Z.eqb] in ML, MU, MC. rewrite Hres in MU, MC.
@@ -629,10 +626,25 @@ Proof.
   - rewrite Hup. reflexivity.
   - intros kk lo abs size H. destruct kk; discriminate.
   - intros kk ref H. discriminate.
-  - rewrite MC, map_map. cbn [fst]. apply map_id.
-  - intros cp ref Hin Ho. apply in_map_iff in Hin. destruct Hin as [c0 [Heq Hin]]. inversion Heq; subst.
-    rewrite Forall_forall in Hold. rewrite (Hold _ Hin) in Ho. discriminate.
+  - rewrite MC. exact Hcr.
+  - exact Hack.
   - intros slot k lo H. rewrite MU, Hu in H. discriminate.
+Qed.
+
+End Scope.
+
+Notation Lk := (Lkg (fun c => c_old c = false)).
+
+(** the start of an incarnation as the monitor leaves it: no upload in flight, every copy inherited *)
+Definition m_start (m : mst) : Prop := m_upl m = [] /\ Forall (fun c => c_old c = true) (m_copies m).
+Definition old_crs (m : mst) : list (copy * rref) := map (fun c => (c, (0, 0, 0)%N)) (m_copies m).
+
+Lemma m_init_start : m_start m_init.
+Proof. split; [reflexivity|constructor]. Qed.
+Lemma mon_exit_start m : m_start (mon_exit m).
+Proof.
+  split; [reflexivity|]. unfold mon_exit. cbn [m_copies]. destruct (Z.eqb _ 0); [constructor|].
+  rewrite Forall_forall. intros c Hin. apply in_map_iff in Hin. destruct Hin as [c0 [<- _]]. reflexivity.
 Qed.
 
 (** ---- one incarnation: the copies are live acknowledgements; owed copies resolve ---- *)
@@ -640,9 +652,9 @@ Theorem mon03_owed_copies_resolve c cfg bs st0 now e0 es x0 x1 cfgsx objs ops m0
   replay_restore c cfg bs st0 now e0 = Some x0 ->
   replay_entries cfg bs 1 x0 es = (x1, []) ->
   m_fresh m0 -> m_start m0 ->
-  l_all cfgsx objs ops (mon_entry cfgsx objs ops m0 e0) (l0 m0) es = true ->
+  l_all cfgsx objs ops (mon_entry cfgsx objs ops m0 e0) (l0 (old_crs m0)) es = true ->
   let m1 := fold_left (mon_entry cfgsx objs ops) (e0 :: es) m0 in
-  let l1 := l_fold cfgsx objs ops (mon_entry cfgsx objs ops m0 e0) (l0 m0) es in
+  let l1 := l_fold cfgsx objs ops (mon_entry cfgsx objs ops m0 e0) (l0 (old_crs m0)) es in
   map fst (l_cr l1) = m_copies m1 /\
   m_live m1 = map fst (locs (s_pbl (x_sys x1))) /\
   exists alloc oldest init gx, greachable cfg alloc oldest init now (x_sys x1) gx /\
@@ -665,15 +677,19 @@ Proof.
   pose proof (J_restore_entry cfgsx objs ops m0 e0 (x_sys x0) g0 T0 Hf) as Hj0.
   assert (Hk0 : K st0 x0 g0) by (unfold K; cbn; exact Hst).
   assert (Hb0 : Bw (x_sys x0) g0) by (apply Bw_nowrites; reflexivity).
-  pose proof (Lk_start cfgsx objs ops c cfg bs st0 now e0 x0 m0 g0 Hr T0 Hs) as HL0.
-  destruct (entries_all oldest cfg bs cfgsx objs ops st0 es 1 _ _ x0 x1 g0 Hg0 Hj0 Hk0 Hb0 HL0 He Hall)
+  assert (HL0 : Lk (mon_entry cfgsx objs ops m0 e0) (l0 (old_crs m0)) (x_sys x0) g0).
+  { destruct Hs as [Hu Hold]. apply (Lk_start _ cfgsx objs ops c cfg bs st0 now e0 x0 m0 g0 _ Hr T0 Hu).
+    - unfold old_crs. rewrite map_map. cbn [fst]. apply map_id.
+    - intros cp ref Hin Ho. unfold old_crs in Hin. apply in_map_iff in Hin. destruct Hin as [c0 [Heq Hin]].
+      inversion Heq; subst. rewrite Forall_forall in Hold. rewrite (Hold _ Hin) in Ho. discriminate. }
+  destruct (entries_all _ oldest cfg bs cfgsx objs ops st0 es 1 _ _ x0 x1 g0 Hg0 Hj0 Hk0 Hb0 HL0 He Hall)
     as [gx [Hp [Hg [Hj [Hk [Hb HL]]]]]].
   set (m1 := fold_left _ es _) in *. set (l1 := l_fold _ _ _ _ _ es) in *.
-  split; [exact (lk_cr _ _ _ _ HL)|]. split; [exact (lk_live _ _ _ _ HL)|].
+  split; [exact (lk_cr _ _ _ _ _ HL)|]. split; [exact (lk_live _ _ _ _ _ HL)|].
   assert (R : greachable cfg alloc oldest init now (x_sys x1) gx).
   { eapply greachable_gpath; [|exact Hp]. exists []. cbn. rewrite Hx0. reflexivity. }
   exists alloc, oldest, init, gx. split; [exact R|].
-  intros cp ref Hin Hold. destruct (lk_ack _ _ _ _ HL cp ref Hin Hold) as [a [Ha [Hr1 [Hr2 [Hge Hloc]]]]].
+  intros cp ref Hin Hold. destruct (lk_ack _ _ _ _ _ HL cp ref Hin Hold) as [a [Ha [Hr1 [Hr2 [Hge Hloc]]]]].
   exists a. split; [exact Ha|]. split; [exact Hr1|]. split; [exact Hr2|]. split; [exact Hge|].
   split; [apply Hloc; reflexivity|].
   intros Hprev.
@@ -704,7 +720,7 @@ Fixpoint l_incs (cfgsx objs : sx) (incs hists : list sx) (m : mst) : bool :=
       match sx_list h with
       | e0 :: es =>
           let ops := sx_list (sx_nth inc 1) in
-          l_all cfgsx objs ops (mon_entry cfgsx objs ops m e0) (l0 m) es &&
+          l_all cfgsx objs ops (mon_entry cfgsx objs ops m e0) (l0 (old_crs m)) es &&
           l_incs cfgsx objs incs' hists' (mon_exit (fold_left (mon_entry cfgsx objs ops) (e0 :: es) m))
       | [] => true
       end
